@@ -86,7 +86,7 @@ HAND=[
 		return nil, err
 	}
 	w.activeUnits[ident] = worker''','drop the error of worker.Save()'),
- ('h11',['C04','C14'],'pkg/workceptor/workunitbase.go','''	file, err := os.Open(filename)
+ ('h11',['C04'],'pkg/workceptor/workunitbase.go','''	file, err := os.Open(filename)
 	if err != nil {
 		return err
 	}
